@@ -51,6 +51,12 @@ class PrefixStability(Lane):
                 body.extend(symbolic_frame(k, (0, i)))
             frame = [bv(0x30, 8)] + [bv(x, 8) for x in ber.py_len_octets(len(body), self.form)] + body
         trail = [z3.BitVec(f'trail{i}', 8) for i in range(self.ntrail)]
+        # well-formed messages only: a control's type is an LDAPOID, i.e. text (envelope child 2, control j, component 0)
+        for b in frame:
+            if z3.is_const(b) and b.decl().kind() == z3.Z3_OP_UNINTERPRETED:
+                parts = b.decl().name().split('_')
+                if len(parts) == 6 and parts[:3] == ['c', '0', '2'] and parts[4] == '0':
+                    self.c.assume(z3.ULT(b, 0x80))
         return {'frame': frame, 'trail': trail}
 
     def dec(self, bs):
@@ -115,7 +121,7 @@ class PrefixStability(Lane):
 
 def body(chk):
     quick = chk.tier == 'quick'
-    for n in ((1, 2, 3, 4, 5, 6) if quick else (1, 2, 3, 4, 5, 6, 7, 8)):
+    for n in ((1, 2, 3, 4, 5, 6) if quick else tier_param('C06', (1, 2, 3, 4, 5, 6, 7))):
         run_lane(chk, Contract, (n,), bounds={'raw bytes': n}, selftest=(n == 4))
     sk = [0, 3, 4, 6] if quick else list(range(len(SKELETONS)))
     for si in sk:
@@ -130,7 +136,7 @@ def body(chk):
     chk.assumptions += [
         "tokio_util::codec::Framed's read loop is trusted: it calls decode() on the accumulated buffer after every read and again after every item; under F1-F3 the delivered sequence is independent of chunking",
         'frames larger than the stated shapes are outside the bound; length arithmetic for large frames is the C07 length kernel (all usize)',
-        'message skeletons: concrete structure, every primitive content byte symbolic',
+        'message skeletons: concrete structure, every primitive content byte symbolic, except that control types (LDAPOIDs) are ASCII: the decoder rejects a control whose type is not text, and the property speaks of well-formed messages',
     ]
 
 
